@@ -82,3 +82,61 @@ func init() {
 			"\t\t\tfor idx, column := range values.Columns {\n\t\t\t\tfield := stmt.Schema.FieldsByDBName[column.Name]\n\t\t\t\tif values.Values[0][idx], isZero", "\t\t\tfor idx, column := range values.Columns {\n\t\t\t\tfield := stmt.Schema.LookUpField(column.Name)\n\t\t\t\tif values.Values[0][idx], isZero"}}},
 	)
 }
+
+func init() {
+	addMutants(
+		Mutant{Name: "c07-create-executor-narrows-captured-flag", Property: "C07", Rule: "C07.escaping-closures", Edits: []Edit{{"callbacks/create.go",
+			"\t\tif db.Statement.SQL.Len() == 0 {\n\t\t\tdb.Statement.SQL.Grow(180)", "\t\tsupportReturning = supportReturning && !db.Statement.SkipHooks\n\t\tif db.Statement.SQL.Len() == 0 {\n\t\t\tdb.Statement.SQL.Grow(180)"}},
+			Note: "the registered create executor re-assigns the flag it captured from Create(config): one cell for all goroutines"},
+		Mutant{Name: "n77-create-executor-shadows-captured-flag", Property: "*", Rule: "NEUTRAL", Edits: []Edit{{"callbacks/create.go",
+			"\t\tif db.Statement.SQL.Len() == 0 {\n\t\t\tdb.Statement.SQL.Grow(180)", "\t\tsupportReturning := supportReturning\n\t\tif db.Statement.SQL.Len() == 0 {\n\t\t\tdb.Statement.SQL.Grow(180)"}}},
+	)
+}
+
+func init() {
+	addMutants(
+		// C06.arg-handles (finding F13)
+		Mutant{Name: "c06-group-condition-runs-scopes-on-argument", Property: "C06", Rule: "C06.arg-handles", Edits: []Edit{{"statement.go",
+			"\t\t\tv = v.getInstance().executeScopes()\n", "\t\t\tv.executeScopes()\n"}}, Note: "reverts half of fix 59916d2"},
+		Mutant{Name: "c06-group-condition-rewrites-argument-expression", Property: "C06", Rule: "C06.arg-handles", Edits: []Edit{{"statement.go",
+			"\t\t\t\t\t\t\texprs = []clause.Expression{clause.AndConditions(orConds)}", "\t\t\t\t\t\t\texprs[0] = clause.AndConditions(orConds)"}}, Note: "reverts the other half of fix 59916d2"},
+		Mutant{Name: "c06-subquery-argument-marked-dryrun-in-place", Property: "C06", Rule: "C06.arg-handles", Edits: []Edit{{"statement.go",
+			"\t\t\tsubdb := v.Session(&Session{Logger: logger.Discard, DryRun: true}).getInstance()", "\t\t\tv.Statement.SkipHooks = true\n\t\t\tsubdb := v.Session(&Session{Logger: logger.Discard, DryRun: true}).getInstance()"}}},
+		// C06.fresh-handle
+		Mutant{Name: "c06-debug-returns-receiver-when-already-info", Property: "C06", Rule: "C06.fresh-handle", Edits: []Edit{{"gorm.go",
+			"func (db *DB) Debug() (tx *DB) {\n", "func (db *DB) Debug() (tx *DB) {\n\tif db.DryRun {\n\t\treturn db\n\t}\n"}}},
+		// C04.tx-errors
+		Mutant{Name: "c04-begin-drops-tx-beginner-error", Property: "C04", Rule: "C04.tx-errors", Edits: []Edit{{"finisher_api.go",
+			"\t\ttx.Statement.ConnPool, err = beginner.BeginTx(tx.Statement.Context, opt)\n\tcase ConnPoolBeginner:", "\t\ttx.Statement.ConnPool, _ = beginner.BeginTx(tx.Statement.Context, opt)\n\tcase ConnPoolBeginner:"}}},
+		// C01.taint: valuer source
+		Mutant{Name: "c01-valuer-result-written-as-text", Property: "C01", Rule: "C01.taint", Edits: []Edit{{"statement.go",
+			"\t\tcase driver.Valuer:\n\t\t\tstmt.Vars = append(stmt.Vars, v)\n\t\t\tstmt.DB.Dialector.BindVarTo(writer, stmt, v)", "\t\tcase driver.Valuer:\n\t\t\tif dv, err := v.Value(); err == nil {\n\t\t\t\tif s, ok := dv.(string); ok {\n\t\t\t\t\twriter.WriteString(s)\n\t\t\t\t\treturn\n\t\t\t\t}\n\t\t\t}\n\t\t\tstmt.Vars = append(stmt.Vars, v)\n\t\t\tstmt.DB.Dialector.BindVarTo(writer, stmt, v)"}}},
+		// C03.serializer-fresh / C07.pool-fresh
+		Mutant{Name: "c03-serializer-holder-reset-only-on-pointer-type", Property: "C03", Rule: "C03.serializer-fresh", Edits: []Edit{{"schema/field.go",
+			"\t\t\t\t\tsi := reflect.New(serializerType)\n\t\t\t\t\tsi.Elem().Set(serializerValue)\n\t\t\t\t\ts.Serializer = si.Interface().(SerializerInterface)\n\t\t\t\t}\n\t\t\t} else {", "\t\t\t\t\tif !sameElemType {\n\t\t\t\t\t\tsi := reflect.New(serializerType)\n\t\t\t\t\t\tsi.Elem().Set(serializerValue)\n\t\t\t\t\t\ts.Serializer = si.Interface().(SerializerInterface)\n\t\t\t\t\t}\n\t\t\t\t}\n\t\t\t} else {"}}},
+		Mutant{Name: "c07-pool-new-returns-captured-holder", Property: "C07", Rule: "C07.pool-fresh", Edits: []Edit{{"schema/field.go",
+			"\t\tserializerType := serializerValue.Type()\n\t\tfield.NewValuePool = &sync.Pool{\n\t\t\tNew: func() interface{} {\n\t\t\t\tsi := reflect.New(serializerType)\n\t\t\t\tsi.Elem().Set(serializerValue)\n\t\t\t\treturn &serializer{\n\t\t\t\t\tField:      field,\n\t\t\t\t\tSerializer: si.Interface().(SerializerInterface),\n\t\t\t\t}\n\t\t\t},\n\t\t}",
+			"\t\tserializerType := serializerValue.Type()\n\t\tsi := reflect.New(serializerType)\n\t\tsi.Elem().Set(serializerValue)\n\t\tholder := &serializer{Field: field, Serializer: si.Interface().(SerializerInterface)}\n\t\tfield.NewValuePool = &sync.Pool{\n\t\t\tNew: func() interface{} {\n\t\t\t\treturn holder\n\t\t\t},\n\t\t}"}}},
+
+		Mutant{Name: "n78-group-condition-instance-in-a-local", Property: "*", Rule: "NEUTRAL", Edits: []Edit{{"statement.go",
+			"\t\t\tv = v.getInstance().executeScopes()\n", "\t\t\tgroup := v.getInstance()\n\t\t\tv = group.executeScopes()\n"}}},
+		Mutant{Name: "n79-pool-new-type-hoisted-value-built-inside", Property: "*", Rule: "NEUTRAL", Edits: []Edit{{"schema/field.go",
+			"\t\t\t\tsi := reflect.New(serializerType)\n\t\t\t\tsi.Elem().Set(serializerValue)\n\t\t\t\treturn &serializer{\n\t\t\t\t\tField:      field,\n\t\t\t\t\tSerializer: si.Interface().(SerializerInterface),\n\t\t\t\t}",
+			"\t\t\t\tsi := reflect.New(serializerType)\n\t\t\t\tsi.Elem().Set(serializerValue)\n\t\t\t\tfresh := si.Interface().(SerializerInterface)\n\t\t\t\treturn &serializer{\n\t\t\t\t\tField:      field,\n\t\t\t\t\tSerializer: fresh,\n\t\t\t\t}"}}},
+		Mutant{Name: "n80-serializer-holder-reset-through-helper-local", Property: "*", Rule: "NEUTRAL", Edits: []Edit{{"schema/field.go",
+			"\t\t\t\t\tsi := reflect.New(serializerType)\n\t\t\t\t\tsi.Elem().Set(serializerValue)\n\t\t\t\t\ts.Serializer = si.Interface().(SerializerInterface)\n\t\t\t\t}\n\t\t\t} else {", "\t\t\t\t\tsi := reflect.New(serializerType)\n\t\t\t\t\tsi.Elem().Set(serializerValue)\n\t\t\t\t\tnext := si.Interface().(SerializerInterface)\n\t\t\t\t\ts.Serializer = next\n\t\t\t\t}\n\t\t\t} else {"}}},
+		Mutant{Name: "n81-withcontext-through-a-local-session", Property: "*", Rule: "NEUTRAL", Edits: []Edit{{"gorm.go",
+			"\treturn db.Session(&Session{Context: ctx})", "\ttx := db.Session(&Session{Context: ctx})\n\treturn tx"}}},
+		Mutant{Name: "n82-begin-error-through-a-local", Property: "*", Rule: "NEUTRAL", Edits: []Edit{{"finisher_api.go",
+			"\t\ttx.Statement.ConnPool, err = beginner.BeginTx(tx.Statement.Context, opt)\n\tcase ConnPoolBeginner:", "\t\tsqlTx, beginErr := beginner.BeginTx(tx.Statement.Context, opt)\n\t\ttx.Statement.ConnPool, err = sqlTx, beginErr\n\tcase ConnPoolBeginner:"}}},
+	)
+}
+
+func init() {
+	addMutants(
+		Mutant{Name: "c02-gt-with-nil-renders-is-not-null", Property: "C02", Rule: "C02.operator-fixed", Edits: []Edit{{"clause/expression.go",
+			"func (gt Gt) Build(builder Builder) {\n", "func (gt Gt) Build(builder Builder) {\n\tif gt.Value == nil {\n\t\tbuilder.WriteQuoted(gt.Column)\n\t\tbuilder.WriteString(\" IS NOT NULL\")\n\t\treturn\n\t}\n"}}},
+		Mutant{Name: "n83-like-operator-in-a-constant", Property: "*", Rule: "NEUTRAL", Edits: []Edit{{"clause/expression.go",
+			"func (like Like) Build(builder Builder) {\n\tbuilder.WriteQuoted(like.Column)\n\tbuilder.WriteString(\" LIKE \")", "const likeOperator = \" LIKE \"\n\nfunc (like Like) Build(builder Builder) {\n\tbuilder.WriteQuoted(like.Column)\n\tbuilder.WriteString(likeOperator)"}}},
+	)
+}
